@@ -2,25 +2,52 @@
 
 // Staged next to a COPY of /repo/internal/maplike/skiplist by tools/runner/props/c18.py
 // (never written into /repo). Gives the correspondence harness a skip list whose random
-// source it controls, and read access to the level table the list really uses.
+// source it controls, and read access to the probability table the list really uses.
+// The private fields are found by their TYPE (the only field of type rand.Source, the only
+// field of type []float64), not by name: renaming them, or the list type, is harmless.
 package skiplist
 
 import (
+	"fmt"
 	"math/rand"
+	"reflect"
+	"unsafe"
 
 	"github.com/fogfish/golem/maplike"
 	"github.com/fogfish/golem/pure/ord"
 )
 
+func verifField(m any, t reflect.Type) reflect.Value {
+	v := reflect.ValueOf(m)
+	for v.Kind() == reflect.Pointer || v.Kind() == reflect.Interface {
+		v = v.Elem()
+	}
+	if v.Kind() != reflect.Struct {
+		panic(fmt.Sprintf("verif hook: the skip list is a %v, not a struct", v.Kind()))
+	}
+	var found reflect.Value
+	n := 0
+	for i := 0; i < v.NumField(); i++ {
+		if f := v.Field(i); f.Type() == t {
+			found = f
+			n++
+		}
+	}
+	if n != 1 {
+		panic(fmt.Sprintf("verif hook: %d fields of type %v in %v (expected exactly one)", n, t, v.Type()))
+	}
+	return reflect.NewAt(found.Type(), unsafe.Pointer(found.UnsafeAddr())).Elem()
+}
+
 // NewWithSource is New with the random source replaced.
 func NewWithSource[K, V any](compare ord.Ord[K], src rand.Source) maplike.MapLike[K, V] {
-	list := New[K, V](compare).(*tSkipList[K, V])
-	list.random = src
+	list := New[K, V](compare)
+	verifField(list, reflect.TypeOf((*rand.Source)(nil)).Elem()).Set(reflect.ValueOf(src))
 	return list
 }
 
-// VerifTable returns list.levels and a copy of list.p (the probability table mkNode reads).
-func VerifTable[K, V any](m maplike.MapLike[K, V]) (int, []float64) {
-	list := m.(*tSkipList[K, V])
-	return list.levels, append([]float64(nil), list.p...)
+// VerifTable returns a copy of the probability table the node-height draw reads.
+func VerifTable[K, V any](m maplike.MapLike[K, V]) []float64 {
+	tab := verifField(m, reflect.TypeOf([]float64(nil))).Interface().([]float64)
+	return append([]float64(nil), tab...)
 }
